@@ -42,10 +42,34 @@ Definition aggregate_all (runs : list files) : files := fold_left aggregate runs
 
 Definition keys (m : files) : list str := map fst m.
 
+(* TestCoverage.Tests : map[BuildLabel]map[string][]LineCoverage.  A run (the coverage object of one
+   finished test) carries its label and its files; Aggregate does `coverage.Tests[label] = c` for every
+   label of the incoming object (last writer wins) and merges the Files. *)
+Definition trun := (str * files)%type.          (* label, files *)
+Definition tests := list (str * files).
+
+Fixpoint tset (l : str) (v : files) (m : tests) : tests :=
+  match m with
+  | [] => [(l, v)]
+  | (k, w) :: r => if str_eqb l k then (k, v) :: r else (k, w) :: tset l v r
+  end.
+
+Fixpoint tlookup (l : str) (m : tests) : option files :=
+  match m with
+  | [] => None
+  | (k, v) :: r => if str_eqb l k then Some v else tlookup l r
+  end.
+
+Definition aggregate_t (acc : tests * files) (r : trun) : tests * files :=
+  (tset (fst r) (snd r) (fst acc), aggregate (snd acc) (snd r)).
+
+Definition aggregate_all_t (runs : list trun) : tests * files := fold_left aggregate_t runs ([], []).
+
 (* ---- correspondence cases ---- *)
 Inductive case :=
 | CMerge (a b out : list cov)
-| CAgg (runs : list files) (observed : files).   (* observed: final Files map, any order *)
+| CAgg (runs : list files) (observed : files)   (* observed: final Files map, any order *)
+| CAggT (runs : list trun) (obs_files : files) (obs_tests : tests).
 
 Definition lines_eqb := list_eqb N.eqb.
 
@@ -57,4 +81,17 @@ Definition check (c : case) : bool :=
       Nat.eqb (length (keys m)) (length obs)
       && forallb (fun kv => lines_eqb (lookup (fst kv) m) (snd kv)
                             && existsb (str_eqb (fst kv)) (keys m)) obs
+  | CAggT runs obsf obst =>
+      let '(ts, m) := aggregate_all_t runs in
+      Nat.eqb (length (keys m)) (length obsf)
+      && forallb (fun kv => lines_eqb (lookup (fst kv) m) (snd kv)
+                            && existsb (str_eqb (fst kv)) (keys m)) obsf
+      && Nat.eqb (length ts) (length obst)
+      && forallb (fun lt =>
+           match tlookup (fst lt) ts with
+           | None => false
+           | Some fm => Nat.eqb (length fm) (length (snd lt))
+                        && forallb (fun kv => lines_eqb (lookup (fst kv) fm) (snd kv)
+                                              && existsb (str_eqb (fst kv)) (keys fm)) (snd lt)
+           end) obst
   end.
